@@ -62,6 +62,10 @@ type Extra interface {
 	ExtraCoverage(tier string, counts map[string]int64) map[string]interface{}
 }
 
+// HangConfirmer lets a check choose the time limit (seconds, > the 30 s watchdog) of the isolated
+// re-run that confirms a hang; default is 4x the watchdog.
+type HangConfirmer interface{ HangConfirmSeconds() int }
+
 // MemLimiter lets a check choose the worker address-space limit (bytes).
 type MemLimiter interface{ MemLimit() uint64 }
 
